@@ -118,6 +118,17 @@ Theorem C19_no_owner_starved : forall vpos kpos (vn rf0 : N) (ops : list op) me 
 Proof. exact reach_no_owner_starved. Qed.
 Print Assumptions C19_no_owner_starved.
 
+(* Routing reads a delta's key only.  Rewriting the other fields of the deltas (payload,
+   source_replica = the replica an update originated on) with any function that keeps keys
+   rewrites the routed copies and changes nothing else: the node left out of a delta's
+   targets is the SENDER, never the origin, so relayed deltas reach their origin too. *)
+Theorem C19_route_independent_of_origin : forall kpos (g : list N * (N * N) -> list N * (N * N)) r os deltas,
+  (forall d, d_key (g d) = d_key d) ->
+  route_selective kpos r os (map g deltas) =
+  map (fun p => (fst p, map g (snd p))) (route_selective kpos r os deltas).
+Proof. exact route_independent_of_origin. Qed.
+Print Assumptions C19_route_independent_of_origin.
+
 (* Broadcast mode: every known peer other than self gets the whole batch. *)
 Theorem C19_broadcast_exact : forall (r : router) deltas t,
   deliveries (route_broadcast r deltas) t =
